@@ -7,7 +7,7 @@ BASE = dict(
   ClientMbox='{"m1"}', GenMbox='<- cGen2', EXP='11', PERIOD='5', AllowList='TRUE',
   UsageOn='FALSE', Blur='0', Welcome='"w0"', MsgIds='{"~"}', AddMsgs='<- cAdd1',
   MoodSet='{"~"}', CVs='{"~"}', Malformed='FALSE', AdvanceSteps='{1}', MaxTime='0',
-  MaxMsgs='1', MaxUsage='0', WithStop='FALSE', WithCrash='FALSE', WithCrashIn='FALSE',
+  MaxMsgs='1', MaxUsage='0', MaxDepth='100', WithStop='FALSE', WithCrash='FALSE', WithCrashIn='FALSE',
   WithFault='FALSE', WithTime='FALSE')
 def gen(name, props, over, extra=()):
     c = dict(BASE); c.update(over)
